@@ -17,7 +17,9 @@ META = dict(
     "raising listener; events: single, two per read, split across reads, empty body, non-JSON body; (thorough) a listener that unregisters itself}; oracle: after every "
     "successful secure (re)connection the accessory's per-session ev registrations include pairing.subscriptions unless a subscription request was cut off, every listener "
     "saw the {} 'back' callback, every event reaches every then-registered listener exactly once in order keyed (aid,iid), a raising listener neither starves others nor "
-    "closes the transport Also: accessories that refuse one characteristic of a request (207 with a row per characteristic), every block boundary inside an EVENT x HTTP style x {one read, two reads} followed by a second event, and configurations under byte-wise reads / reads ending inside a block / chunked lower-case HTTP.",
+    "closes the transport Also: accessories that refuse one characteristic of a request (207 with a row per characteristic), every block boundary inside an EVENT x HTTP style x {one read, two reads} followed by a second event, and configurations under byte-wise reads / reads ending inside a block / chunked lower-case HTTP. BLE leg (c12_ble.py): all histories up to depth D over {subscribe calls with overlapping sets, the start-notify timer, "
+    "a change announced by an empty GATT notification, a burst over all enabled characteristics, a storm on one, link drop, reconnect by the next use, one CCCD write that fails while the link stays up, a raising listener} "
+    "against a real BlePairing and the reference GATT accessory: every subscription has notifications enabled on the live connection once quiescent, every announced change ends up delivered, deliveries follow the accessory's value history.",
     note="bounded depth D; the accessory model registers ev per session as HAP specifies and never pushes events on its own",
     design_ref="DESIGN.md §4 C12",
     rule="state = canonical (subscriptions, accessory registrations, listeners, logs, flags); transition = one history symbol; execution = maximal path",
@@ -436,7 +438,20 @@ def case_coap_events(p):
     return out
 
 
-CASES = {"explore": case_explore, "event_splits": case_event_splits, "coap_events": case_coap_events}
+def case_ble_subs(p):
+    from vt.props.c12_ble import BleSubH
+
+    h, trace = explore.run_prefix(lambda: BleSubH(p), p["choices"])
+    try:
+        v = h.violations()
+        if not v:
+            v = h.finish()
+        return [(s_, dict(detail=d, trace=trace)) for s_, d in v]
+    finally:
+        h.close()
+
+
+CASES = {"ble_subs": case_ble_subs, "explore": case_explore, "event_splits": case_event_splits, "coap_events": case_coap_events}
 
 
 def _work_coap(item, seed, tier):
@@ -471,8 +486,33 @@ def _work(item, seed, tier):
     return acc
 
 
+def _work_ble(item, seed, tier):
+    from vt.props.c12_ble import BleSubH
+
+    acc = core.Acc()
+    p, root, depth = item
+    explore.explore(lambda: BleSubH(p), acc, depth=depth, case="ble_subs", params=p, root=root, prune=True, finish=True)
+    return acc
+
+
 def run(ctx):
     quick = ctx.tier == "quick"
+    from vt.props import c12_ble
+
+    ble_configs = [
+        (dict(leg="ble"), 5 if quick else 7),
+        (dict(leg="ble", raiser="A", alphabet=["sub:9+10+13+14", "timer", "change:9", "burst", "storm:10", "drop", "use"]), 5 if quick else 7),
+        # from a non-initial state: subscribed, notifications running, then the link was lost and re-made by the next use
+        (dict(leg="ble", prelude=["sub:9+10+13+14", "timer", "drop", "use"], max_drops=2, alphabet=["timer", "change:13", "burst", "storm:10", "drop", "use", "fail-start:13", "sub:9"]), 4 if quick else 6),
+    ]
+    work = []
+    for p, d in ble_configs:
+        p = dict(p, seed=ctx.seed)
+        work += [(p, r, d) for r in explore.roots(lambda: c12_ble.BleSubH(p), 2)]
+    ctx.pmap(_work_ble, work)
+    ctx.bounds.update(ble_configs=[dict(alphabet=c.get("alphabet", c12_ble.ALPH), prelude=c.get("prelude", []), depth=d) for c, d in ble_configs])
+    for s_ in ("burst", "storm", "fail-start", "change", "use"):
+        ctx.require(ctx.acc.symbols[s_] > 0, f"BLE symbol {s_} never taken")
     configs = [
         (dict(alphabet=ALPH_SUBS, max_drops=2), 5 if quick else 7),
         (dict(alphabet=ALPH_EVENTS, max_drops=1, raiser="partial"), 4 if quick else 6),
